@@ -105,11 +105,24 @@ func modelPoint(o *observation) (chunks [][]byte, sch string, runner bool, cut, 
 		case cs.Pause:
 			// the runner was held while the daemon was away: it has done what the files show —
 			// nothing, or its first rewrite, or also the command's first write, or a tick
+			// Only the runner is held: its command goes on writing, so the output the harness
+			// measured when the daemon died may have grown by the time the restarted daemon looks.
+			// What is fixed at the restart is the record the held runner left on disk (HeldState, read
+			// after the runner was stopped) and the output the restart itself found there (the size it
+			// reports for a record it marks Failed; the Go oracle holds that against the file).
 			g := 1
+			seen := o.LocalOut
+			if o.AtRestart.Listed && complete(o.AtRestart.State) && int(o.AtRestart.Size) > seen {
+				seen = int(o.AtRestart.Size)
+			}
 			switch {
 			case o.HeldState == 1:
 				g = 4
-			case o.LocalOut >= first:
+			case seen >= total && total > first:
+				// the command ran to its end under a runner that had not yet recorded anything: not a
+				// prefix of the runner's program in the model
+				return nil, "", false, 0, 0, false
+			case seen >= first:
 				g = 3
 			}
 			if cs.Point == "submit.started" {
